@@ -278,9 +278,22 @@ P_C12 == /\ exc => TRUE
                \A qm \in ActiveTree(qi, Def.root) : ~processing[qi][qm]
 
 \* ---------------------------------------------------------------- C17: flags are a function of the active configuration
-QFlagOracle(qi, qf) == \E qm \in ActiveTree(qi, Def.root) : \E qr \in 1..NReg(qm) : qf \in MD(qm).flags[active[qi][qm][qr]]
+QFlagOracleIn(qi, qtop, qf) == \E qm \in ActiveTree(qi, qtop) : \E qr \in 1..NReg(qm) : qf \in MD(qm).flags[active[qi][qm][qr]]
+QFlagOracle(qi, qf) == QFlagOracleIn(qi, Def.root, qf)
+\* AND operator: the active state of every region of the queried machine carries F (a submachine state carries it itself or through
+\* its active configuration)
+QCarries(qi, qm, qs, qf) == qf \in MD(qm).flags[qs] \/ (IsSub(qm, qs) /\ QFlagOracleIn(qi, qs, qf))
+QFlagAndOracle(qi, qf) == \A qr \in 1..NReg(Def.root) : QCarries(qi, Def.root, active[qi][Def.root][qr], qf)
+\* Known finding F15 (backmp11): with the AND operator every active state at every depth must carry the flag itself, so the answer
+\* differs from the statement (and from back / back11) when a submachine is active; exactly that reading is excused, in that situation only.
+QAndAllActive(qi, qf) == \A qm \in ActiveTree(qi, Def.root) : \A qr \in 1..NReg(qm) : qf \in MD(qm).flags[active[qi][qm][qr]]
+QHasActiveSub(qi) == \E qr \in 1..NReg(Def.root) : IsSub(Def.root, active[qi][Def.root][qr])
 P_C17 == Quiescent => \A qi \in Insts : running[qi][Def.root] =>
-            \A qk \in 1..Len(Def.flags) : FlagVec(qi, Def.root)[qk] = QFlagOracle(qi, Def.flags[qk])
+            \A qk \in 1..Len(Def.flags) :
+               /\ FlagVec(qi, Def.root)[qk] = QFlagOracle(qi, Def.flags[qk])
+               /\ LET qv == FlagVec(qi, Def.root)[Len(Def.flags) + qk] IN
+                     \/ qv = QFlagAndOracle(qi, Def.flags[qk])
+                     \/ IsM /\ QHasActiveSub(qi) /\ qv = QAndAllActive(qi, Def.flags[qk])
 
 \* ---------------------------------------------------------------- C15: copies are independent
 \* Known finding F6 (back, back11): a queued / deferred closure copied with the machine stays bound to the object it was
